@@ -15,7 +15,7 @@ CONSTANTS
   MaxDup = 0
   MaxCrash = 0
   MaxProp = 1
-  MaxReads = 2
+  MaxReads = 1
   MaxConf = 0
   ConfOps <- OpsNone
   FCrash = FALSE
